@@ -55,52 +55,86 @@ def match_known(prop, name, witness):
         return k
     return None
 
-def verify_functions(prop, mod, res, tier):
-    """generate and discharge obligations for every function under contract of this property"""
-    for entry in mod.FUNCTIONS:
-        file, qual = entry[0], entry[1]
-        opts = entry[2] if len(entry) > 2 else {}
+class ObRec(object):
+    """picklable record of a discharged obligation (workers run in separate processes)"""
+    def __init__(self, o):
+        self.name, self.kind, self.function, self.where = o.name, o.kind, o.function, o.where
+        self.carries_property = o.carries_property
+        self.result, self.backend, self.solver_s, self.reason = o.result, o.backend, o.solver_s, o.reason
+        self.backends_tried = o.backends_tried
+        self.model = solve._model_dict(o.model) if getattr(o, 'model', None) is not None and not isinstance(o.model, dict) else getattr(o, 'model', None)
+    def summary(self):
+        return dict(name=self.name, function=self.function, where=self.where, kind=self.kind,
+                    backend=self.backend, result=self.result, solver_s=round(self.solver_s, 4))
+
+def _verify_one(args):
+    prop, modname, file, qual, opts, both = args
+    import importlib
+    importlib.import_module(modname)      # registers the contracts
+    c = REG.get(file, qual)
+    if c is None: return dict(error='no contract registered for %s::%s' % (file, qual))
+    try:
+        fi = extract.get_func(file, qual)
+        ex = symexec.verify(prop, c, track_raises=opts.get('track_raises', c.on_raise is not None))
+        solve.discharge_all(ex.obls, both=both, jobs=2)
+    except Exception as e:
+        return dict(error='%s::%s: %s: %s' % (file, qual, type(e).__name__, str(e)[:300]))
+    info = dict(file=file, qualname=qual, lines=list(fi.lines), sha256=fi.sha256, dropped=fi.dropped,
+                obligations=len(ex.obls), paths=ex.n_paths, notes=ex.notes)
+    return dict(info=info, obls=[ObRec(o) for o in ex.obls], assumptions=list(REG.assumptions))
+
+def _mutant_one(args):
+    prop, modname, m = args
+    import importlib
+    importlib.import_module(modname)
+    file, qual, old, new, expect = m[:5]
+    rec = dict(function='%s::%s' % (file, qual), mutant='%s -> %s' % (old, new), expect=expect)
+    try:
+        fi = extract.mutant(extract.get_func(file, qual), old, new)
+    except KeyError as e:
+        rec['status'] = 'skipped: ' + str(e); return rec
+    try:
         c = REG.get(file, qual)
-        if c is None:
-            res.errors.append('no contract registered for %s::%s' % (file, qual)); continue
-        try:
-            fi = extract.get_func(file, qual)
-            ex = symexec.verify(prop, c, track_raises=opts.get('track_raises', c.on_raise is not None))
-        except Exception as e:
-            # the engine could not process this function (construct outside the subset, contract out of step with the code,
-            # unresolved name ...): checker error for this function; the concrete oracle still runs
-            res.errors.append('%s::%s: %s: %s' % (file, qual, type(e).__name__, str(e)[:300]))
-            continue
-        if not ex.obls:
-            res.errors.append('%s::%s generated zero obligations' % (file, qual))
-        res.functions.append(dict(file=file, qualname=qual, lines=list(fi.lines), sha256=fi.sha256, dropped=fi.dropped,
-                                  obligations=len(ex.obls), paths=ex.n_paths, notes=ex.notes))
-        res.obls.extend(ex.obls)
+        ex = symexec.verify(prop, c, track_raises=(c.on_raise is not None), fi=fi)
+        # the obligations named by `expect` first; stop at the first one that no longer discharges
+        order = sorted(ex.obls, key=lambda o: 0 if expect in o.name else 1)
+        rec['status'] = 'SURVIVED'; rec['failed'] = []
+        for o in order:
+            solve.discharge(o)
+            if o.result == 'failed':
+                rec['failed'].append(o.name); rec['status'] = 'killed' if expect in o.name else 'killed-elsewhere'; break
+            if o.result == 'unknown':
+                rec['failed'].append(o.name + ' (undecided)'); rec['status'] = 'killed (no longer provable: undecided)'; break
+    except Exception as e:
+        rec['status'] = 'killed (checker rejects: %s: %s)' % (type(e).__name__, str(e)[:200])
+    return rec
+
+def _pool():
+    import multiprocessing as mp
+    from concurrent.futures import ProcessPoolExecutor
+    return ProcessPoolExecutor(max_workers=int(os.environ.get('PYVC_JOBS', '8')), mp_context=mp.get_context('fork'))
+
+def verify_functions(prop, mod, res, tier):
+    """generate and discharge obligations for every function under contract of this property (one process per function)"""
+    jobs = [(prop, mod.__name__, e[0], e[1], (e[2] if len(e) > 2 else {}), tier == 'thorough') for e in mod.FUNCTIONS]
+    with _pool() as ex:
+        outs = list(ex.map(_verify_one, jobs))
+    for o in outs:
+        if 'error' in o: res.errors.append(o['error']); continue
+        if not o['obls']: res.errors.append('%s::%s generated zero obligations' % (o['info']['file'], o['info']['qualname']))
+        res.functions.append(o['info']); res.obls.extend(o['obls'])
+        for a in o['assumptions']: REG.assume(a)
 
 def run_mutants(prop, mod, res):
     """must-fail self-test: in-memory mutants of the real functions; each must make its named obligation fail"""
-    for m in getattr(mod, 'MUTANTS', []):
-        file, qual, old, new, expect = m[:5]
-        rec = dict(function='%s::%s' % (file, qual), mutant='%s -> %s' % (old, new), expect=expect)
-        try:
-            fi = extract.mutant(extract.get_func(file, qual), old, new)
-        except KeyError as e:
-            # the code no longer contains the pattern (edited tree): the self-test entry is skipped, stated
-            rec['status'] = 'skipped: ' + str(e); res.mutants.append(rec); continue
-        try:
-            c = REG.get(file, qual)
-            ex = symexec.verify(prop, c, track_raises=(c.on_raise is not None), fi=fi)
-            failed = []
-            for o in ex.obls:
-                solve.discharge(o)
-                if o.result == 'failed': failed.append(o.name)
-            rec['failed'] = failed
-            rec['status'] = 'killed' if any(expect in f for f in failed) else ('killed-elsewhere' if failed else 'SURVIVED')
-        except Exception as e:
-            rec['status'] = 'killed (checker rejects: %s: %s)' % (type(e).__name__, str(e)[:200])
+    ms = list(getattr(mod, 'MUTANTS', []))
+    if not ms: return
+    with _pool() as ex:
+        recs = list(ex.map(_mutant_one, [(prop, mod.__name__, m) for m in ms]))
+    for rec in recs:
         res.mutants.append(rec)
         if rec['status'] == 'SURVIVED':
-            res.errors.append('self-test: mutant %r of %s still verifies (engine or contract too weak)' % (rec['mutant'], qual))
+            res.errors.append('self-test: mutant %r of %s still verifies (engine or contract too weak)' % (rec['mutant'], rec['function']))
 
 def main(argv=None):
     argv = argv or sys.argv[1:]
@@ -163,7 +197,7 @@ def main(argv=None):
             res.known.append((k, o)); continue
         payload = dict(property=prop, obligation=o.name, function=o.function, where=o.where,
                        solver=dict(backend=o.backend, result=o.result, tried=o.backends_tried,
-                                   model=solve._model_dict(o.model) if o.model is not None else None, reason=o.reason))
+                                   model=(o.model if isinstance(o.model, dict) or o.model is None else solve._model_dict(o.model)), reason=o.reason))
         if witness is not None and witness.get('deviates'):
             payload.update(status='replayed', input=witness.get('input'), observed=witness.get('observed'), expected=witness.get('expected'))
             path = write_replay(prop, o.name, payload)
